@@ -28,7 +28,8 @@ type TaskArg struct {
 	Nil   bool   `json:"nil,omitempty"`
 	ID    string `json:"id"`
 	HasFn bool   `json:"has_fn"`
-	Obj   int    `json:"obj"` // which Task object of that ID (re-adding may use a fresh object)
+	Obj   int    `json:"obj"`            // which Task object of that ID (re-adding may use a fresh object)
+	Look  bool   `json:"look,omitempty"` // the argument is g.Task(ID), evaluated when the call is made
 }
 
 type GOp struct {
@@ -43,8 +44,9 @@ type DagDef struct {
 	Serial   bool                `json:"serial"`
 	Cap      int                 `json:"cap"` // 0: default
 	Buffered bool                `json:"buffered"`
-	Outcomes map[string][]string `json:"outcomes"`  // per task ID: outcome of attempt k (nil err skip), last repeated
-	CancelAt int                 `json:"cancel_at"` // cancel before the n-th release (-1 never)
+	Outcomes map[string][]string `json:"outcomes"`        // per task ID: outcome of attempt k (nil err skip), last repeated
+	CancelAt int                 `json:"cancel_at"`       // cancel before the n-th release (-1 never)
+	Order    []string            `json:"order,omitempty"` // release priority among the running tasks (earlier first); ids not listed come last, smallest id first
 }
 
 type DEvent struct {
@@ -180,6 +182,8 @@ func classifyDagErr(e error) string {
 		return "XMissingID"
 	case errors.Is(e, dag.ErrorTaskFn):
 		return "XMissingFn " + strings.TrimPrefix(s, dag.ErrorTaskFn.Error()+" for ")
+	case errors.Is(e, dag.ErrorTaskNotFound):
+		return "XNotFound " + strings.TrimPrefix(s, dag.ErrorTaskNotFound.Error()+": ")
 	case errors.Is(e, dag.ErrorTaskDependencyDuplicate):
 		return "XDupDep " + strings.TrimPrefix(s, dag.ErrorTaskDependencyDuplicate.Error()+": ")
 	case errors.Is(e, dag.ErrorGraphHasCycle):
@@ -228,6 +232,9 @@ func runDag(def *DagDef, grace time.Duration) *DagObs {
 	mk := func(a TaskArg) *dag.Task {
 		if a.Nil {
 			return nil
+		}
+		if a.Look {
+			return g.Task(a.ID)
 		}
 		key := fmt.Sprintf("%s#%d#%v", a.ID, a.Obj, a.HasFn)
 		if t, ok := objs[key]; ok {
@@ -318,9 +325,17 @@ loop:
 			continue
 		}
 		// release one running task (deterministic choice: smallest id keeps replays stable)
+		prio := func(id string) int {
+			for i, x := range def.Order {
+				if x == id {
+					return i
+				}
+			}
+			return len(def.Order)
+		}
 		pick := running[0]
 		for _, id := range running {
-			if id < pick {
+			if prio(id) < prio(pick) || (prio(id) == prio(pick) && id < pick) {
 				pick = id
 			}
 		}
@@ -471,6 +486,32 @@ func genDagDef(r *rand.Rand, maxN int, history bool) *DagDef {
 			}
 			d.Ops = append(d.Ops[:pos], append([]GOp{op}, d.Ops[pos:]...)...)
 		}
+		// refer to tasks through g.Task(id) in some calls (an unknown id records an error and
+		// yields an empty Task)
+		known := map[string]bool{}
+		look := func(a *TaskArg) {
+			if a.Nil || a.ID == "" || !a.HasFn {
+				return
+			}
+			if (known[a.ID] && r.Intn(3) == 0) || (!known[a.ID] && r.Intn(40) == 0) {
+				a.Look = true
+			}
+		}
+		for i := range d.Ops {
+			look(&d.Ops[i].T)
+			for j := range d.Ops[i].Deps {
+				look(&d.Ops[i].Deps[j])
+			}
+			// what the call has certainly added (an approximation: only used to bias the choice)
+			if !d.Ops[i].T.Nil && d.Ops[i].T.HasFn && d.Ops[i].T.ID != "" {
+				known[d.Ops[i].T.ID] = true
+			}
+			for _, dd := range d.Ops[i].Deps {
+				if !dd.Nil && dd.HasFn && dd.ID != "" {
+					known[dd.ID] = true
+				}
+			}
+		}
 	}
 	switch r.Intn(6) {
 	case 0:
@@ -502,14 +543,98 @@ func genDagDef(r *rand.Rand, maxN int, history bool) *DagDef {
 	if r.Intn(6) == 0 {
 		d.CancelAt = r.Intn(n + 1)
 	}
+	if r.Intn(3) > 0 {
+		// the order in which running tasks are made to finish
+		for _, i := range r.Perm(n) {
+			d.Order = append(d.Order, ids[i])
+		}
+	}
+	return d
+}
+
+// exhDagDef enumerates, for 1-3 vertices: every dependency shape over a fixed topological order x
+// every outcome assignment {nil, error, ErrorSkipParents, fail-then-succeed with one retry} x
+// {parallel, SetMaxParallel(1), SetMaxParallel(2), serial} x every order in which running tasks
+// are made to finish.  exhDagCount is the size of the enumeration.
+var exhPerms = map[int][][]int{
+	1: {{0}},
+	2: {{0, 1}, {1, 0}},
+	3: {{0, 1, 2}, {0, 2, 1}, {1, 0, 2}, {1, 2, 0}, {2, 0, 1}, {2, 1, 0}},
+}
+
+func exhBlock(n int) int {
+	edges := n * (n - 1) / 2
+	out := 1
+	for i := 0; i < n; i++ {
+		out *= 4
+	}
+	return (1 << uint(edges)) * out * 4 * len(exhPerms[n])
+}
+
+func exhDagCount() int { return exhBlock(1) + exhBlock(2) + exhBlock(3) }
+
+func exhDagDef(idx int) *DagDef {
+	n := 1
+	for idx >= exhBlock(n) {
+		idx -= exhBlock(n)
+		n++
+	}
+	ids := []string{"a", "b", "c"}[:n]
+	edges := n * (n - 1) / 2
+	mask := idx % (1 << uint(edges))
+	idx /= 1 << uint(edges)
+	d := &DagDef{Outcomes: map[string][]string{}, CancelAt: -1}
+	arg := func(id string) TaskArg { return TaskArg{ID: id, HasFn: true} }
+	bit := 0
+	for i := 0; i < n; i++ {
+		deps := []TaskArg{}
+		for j := 0; j < i; j++ {
+			if mask&(1<<uint(bit)) != 0 {
+				deps = append(deps, arg(ids[j]))
+			}
+			bit++
+		}
+		if len(deps) > 0 {
+			d.Ops = append(d.Ops, GOp{Kind: "dep", T: arg(ids[i]), Deps: deps})
+		} else {
+			d.Ops = append(d.Ops, GOp{Kind: "add", T: arg(ids[i])})
+		}
+	}
+	for i := 0; i < n; i++ {
+		switch idx % 4 {
+		case 1:
+			d.Outcomes[ids[i]] = []string{"err"}
+		case 2:
+			d.Outcomes[ids[i]] = []string{"skip"}
+		case 3:
+			d.Outcomes[ids[i]] = []string{"err", "nil"}
+			d.Ops = append(d.Ops, GOp{Kind: "retries", T: arg(ids[i]), Retries: 1})
+		}
+		idx /= 4
+	}
+	switch idx % 4 {
+	case 1:
+		d.Cap = 1
+	case 2:
+		d.Cap = 2
+	case 3:
+		d.Serial = true
+	}
+	idx /= 4
+	for _, i := range exhPerms[n][idx%len(exhPerms[n])] {
+		d.Order = append(d.Order, ids[i])
+	}
 	return d
 }
 
 func tTaskArg(a TaskArg) *T {
-	if a.Nil {
-		return Ctor("None")
+	if a.Look {
+		return Ctor("TL", Str(a.ID))
 	}
-	return Ctor("Some", Pair(Str(a.ID), Bool(a.HasFn)))
+	if a.Nil {
+		return Ctor("TA", Ctor("None"))
+	}
+	return Ctor("TA", Ctor("Some", Pair(Str(a.ID), Bool(a.HasFn))))
 }
 
 func tOutcome(r string) *T {
@@ -527,7 +652,10 @@ func tGErr(s string) *T {
 	switch f[0] {
 	case "XNilTask", "XMissingID", "XCycle", "XCancel":
 		return Ctor(f[0])
-	case "XMissingFn", "XTask", "XSkipped":
+	case "XMissingFn", "XTask", "XSkipped", "XNotFound":
+		if len(f) < 2 {
+			return Ctor(f[0], Str(""))
+		}
 		return Ctor(f[0], Str(f[1]))
 	case "XDupDep":
 		ab := strings.SplitN(f[1], " -> ", 2)
@@ -638,8 +766,16 @@ func cmdDag(argv []string) {
 	fs.Parse(argv)
 	dag.Logger.SetOutput(io.Discard)
 	r := rand.New(rand.NewSource(*seed))
+	if *profile == "exh" && *n > exhDagCount() {
+		*n = exhDagCount()
+	}
 	defs := make([]*DagDef, *n)
 	for i := range defs {
+		if *profile == "exh" {
+			// shards take consecutive slices of the enumeration: -seed carries the offset
+			defs[i] = exhDagDef((int(*seed%1000)*(*n) + i) % exhDagCount())
+			continue
+		}
 		defs[i] = genDagDef(r, *maxN, *profile != "dag")
 		if *profile == "cycle" && r.Intn(2) == 0 {
 			// close a cycle
